@@ -402,8 +402,52 @@ def check(ctx):
         if bad_:
             ctx.violation('C01.R12', rel, fe, Model.qual(fe), '%s: %s -- the bits written before the field are corrupted and the decoder reads another value' % bad_, stmt='bit field (append_bits)')
 
+    # ---- R13: the text of the time types has fields of fixed width on both sides.  strptime('%Y') reads four digits, but strftime('%Y') writes the year unpadded
+    #      with glibc (year 999 -> '999'): a formatting directive whose width depends on the platform must not produce encoded text.
+    ctx.rule('C01.R13', 'time text is written with fixed-width fields: no strftime directive of platform-dependent width (%Y, %G, %C) on the encode side')
+    n13 = 0
+    for m_ in model.modules.values():
+        if not m_.rel.startswith('asn1tools/codecs/'):
+            continue
+        for f_ in Model.all_functions_of(m_) if hasattr(Model, 'all_functions_of') else [x_ for x_ in ast.walk(m_.tree) if isinstance(x_, ast.FunctionDef)]:
+            for c_ in walk_no_nested(f_):
+                if not (isinstance(c_, ast.Call) and isinstance(c_.func, ast.Attribute) and c_.func.attr == 'strftime' and c_.args):
+                    continue
+                a_ = c_.args[0]
+                fmts = []
+                if isinstance(a_, ast.Constant) and isinstance(a_.value, str):
+                    fmts = [a_.value]
+                elif isinstance(a_, ast.Name):
+                    r_ = m_.resolve_name(a_.id)
+                    if isinstance(r_, tuple) and r_[0] == 'const' and isinstance(r_[1], ast.Constant):
+                        fmts = [r_[1].value]
+                    else:
+                        fmts = [x_.value.value for x_ in walk_no_nested(f_) if isinstance(x_, ast.Assign) and isinstance(x_.value, ast.Constant) and isinstance(x_.value.value, str)
+                                and any(isinstance(t_, ast.Name) and t_.id == a_.id for t_ in x_.targets)]
+                elif isinstance(a_, ast.Attribute) and isinstance(a_.value, ast.Name) and a_.value.id in ('self', 'cls'):
+                    # a class-level format: every class of the module that sets it
+                    fmts = [k_.attrs[a_.attr].value for mm_ in model.modules.values() if mm_.rel.startswith('asn1tools/codecs/') for k_ in mm_.classes.values()
+                            if a_.attr in k_.attrs and isinstance(k_.attrs[a_.attr], ast.Constant) and isinstance(k_.attrs[a_.attr].value, str)]
+                n13 += 1
+                bad_ = sorted({d_ for t_ in fmts for d_ in re.findall(r'%[-_0^#]?[YGC]', t_)})
+                ctx.instance('C01.R13', '%s strftime(%s)' % (Model.qual(f_), ast.unparse(a_)[:40]), 'VIOLATION' if bad_ else ('fixed width' if fmts else 'undecided'),
+                             '' if fmts else 'format not resolved', nontrivial=bool(fmts), node=c_, file=m_.rel)
+                if bad_:
+                    ctx.violation('C01.R13', m_.rel, c_, Model.qual(f_),
+                                  'the encoded time text is produced by strftime with %s: the C library does not zero pad the year (year 999 gives "999", not "0999"), while the '
+                                  'decoder reads a four digit year -- a value before the year 1000 is encoded to text that is not decoded back to it' % ', '.join(bad_),
+                                  stmt='strftime(%s)' % ast.unparse(a_)[:40])
+    if n13 < 4:
+        raise AnalysisError('C01.R13 found only %d strftime sites in asn1tools/codecs' % n13)
+
 
 MUTANTS = [
+    dict(name='restricted generalized time year through strftime', file='asn1tools/codecs/__init__.py',
+         old="""        string = format_year(date) + date.strftime('%m%d%H%M%S')
+
+    return string + 'Z'""", new="""        string = date.strftime('%Y%m%d%H%M%S')
+
+    return string + 'Z'""", expect='C01.R13'),
     dict(name='addition group reset on all-zero bits alone', file=PER,
          old="""        if (encoder.are_all_bits_zero()
             and (encoder.number_of_bits == len(self.optionals))):
